@@ -567,7 +567,7 @@ def stage_follow(wd, V, rng, tier):
         n = 0
         nlines = 120 if tier == "quick" else 900
         while n < nlines:
-            kind = rng.choice(["plain", "plain", "cr", "crcr", "crin", "blank", "twoparts", "long", "burst", "dot", "utf8"])
+            kind = rng.choice(["plain", "plain", "cr", "crcr", "crin", "blank", "twoparts", "long", "exact", "empty", "burst", "dot", "utf8"])
             n += 1
             tag = b"L%d:" % n
             if kind == "plain":
@@ -588,6 +588,13 @@ def stage_follow(wd, V, rng, tier):
                 wline(tag + b"first half / second half", parts=2, pause=rng.choice([0.03, 0.15, 0.35]))
             elif kind == "long":
                 wline(tag + b"h" * rng.choice([MAXL - 10, MAXL + 1, 2 * MAXL + 77, 3 * MAXL]), parts=rng.choice([1, 2]), pause=0.25)
+            elif kind == "exact":
+                # exactly k x MaxLineLength bytes, then really empty lines (the line's own newline stands alone after the cut)
+                wline((tag + b"e" * (3 * MAXL))[:rng.choice([1, 2]) * MAXL], parts=rng.choice([1, 2]), pause=0.2)
+                for _ in range(rng.choice([1, 2])):
+                    wline(b"")
+            elif kind == "empty":
+                wline(b"")
             elif kind == "burst":
                 for j in range(30):
                     wline(tag + b"burst %d" % j)
@@ -611,13 +618,26 @@ def stage_follow(wd, V, rng, tier):
             V.violation("dtail over SSH: the first delivered line is not a line of the file", {"first_records": [r[1][:80].decode(errors="replace") for r in recs[:3]]})
             return 1
         exp = list(written[start:])
+        orig = [len(x) for x in exp]
         i = 0
         bad = None
+        spurious_ok = False     # the last line had exactly k x MaxLineLength bytes: its own newline stands alone after the cut,
+        slack = 0               # one empty record more is the permitted long-line newline (C01), not a line of the file
         for perc, c in recs[first:]:
+            if spurious_ok and c == b"":
+                spurious_ok = False
+                if i < len(exp) and exp[i] == b"":
+                    slack += 1          # could also be the real empty line that follows: settled at the next mismatch
+                continue
+            spurious_ok = False
             if i >= len(exp):
                 bad = "a line was delivered after the last appended line: %r" % c[:80]
                 break
+            if c != exp[i] and exp[i] == b"" and slack > 0 and i + 1 < len(exp) and (c == exp[i + 1] or (len(exp[i + 1]) > MAXL and exp[i + 1].startswith(c))):
+                slack -= 1              # the empty record taken for the permitted one was this real empty line
+                i += 1
             if c == exp[i]:
+                spurious_ok = len(c) > 0 and orig[i] % MAXL == 0
                 i += 1
                 continue
             if len(exp[i]) > MAXL and exp[i].startswith(c) and 0 < len(c) <= MAXL:
@@ -630,6 +650,8 @@ def stage_follow(wd, V, rng, tier):
             bad = ("appended line %r was not delivered as it is; the record in its place: %r (transmission %s%%)" %
                    (exp[i][:60], c[:60], perc.decode(errors="replace")))
             break
+        if bad is None and slack > 0 and i == len(exp) - slack and all(x == b"" for x in exp[i:]):
+            i = len(exp)
         if bad is None and i < len(exp):
             bad = "%d of %d appended lines delivered 30 s after the last one was written; first missing: %r" % (i, len(exp), exp[i][:60])
         if bad:
